@@ -92,7 +92,8 @@ def workflow(id, steps, setup=()):
 # ----------------------------------------------------------------------------------------
 # rendering for the engine
 
-USES = {"irq": "acts.core.irq", "msg": "acts.core.msg", "": "", "bad": "no.such.pack", "sub": "acts.core.subflow"}
+USES = {"irq": "acts.core.irq", "msg": "acts.core.msg", "": "", "bad": "no.such.pack", "sub": "acts.core.subflow",
+        "code": "acts.transform.code"}
 
 
 def r_cond(d, e):
@@ -118,6 +119,9 @@ def r_act(a):
     d = {"id": a["id"], "uses": USES[a["uses"]], "key": "k_" + a["id"]}
     if a["uses"] == "sub":
         d["params"] = {"to": a["to"], "options": {"pid": a["cpid"], **a["opts"]}}
+    if a["uses"] == "code":
+        # a script that notes something in the environment of the process
+        d["params"] = '$env.tok = "t-" + a["id"]; return null;'.replace('a["id"]', a["id"]).replace('"t-" + ', '"t-').replace('; return', '"; return')
     r_cond(d, a["cond"])
     if a["catches"]:
         d["catches"] = r_catches(a["catches"])
@@ -292,6 +296,10 @@ def hand():
         step("s1", acts=[act("a1", cond=B)]),
         step("s2", acts=[act("a2", cond=B), act("a3")]),
     ])))
+    out.append(line("env_write", workflow("m", [
+        step("s1", acts=[act("a0", uses="code"), act("a1")]),
+        step("s2", acts=[act("a2", uses="code"), act("a3")]),
+    ])))
     out.append(line("no_uses", workflow("m", [
         step("s1", acts=[act("a1", uses="")]),
         step("s2"),
@@ -378,6 +386,7 @@ def multi():
     out += bundle("m_three", with_id(h["else_last"], "m"), [with_id(h["cancel_chain"], "n"), with_id(h["catch_step_two"], "o")])
     out += bundle("m_par", with_id(h["par_branches"], "m"), [with_id(h["needs"], "n")])
     out += bundle("m_err", with_id(h["no_uses"], "m"), [with_id(h["catch_all_empty"], "n")])
+    out += bundle("m_env", with_id(h["env_write"], "m"), [with_id(h["two_acts"], "n")])
     return out
 
 
@@ -791,7 +800,7 @@ def family_core(budget, opts, limit=None, seed=0):
     return [line(f"g{i}", w) for i, w in enumerate(ws)]
 
 
-SEQ_NAMES = {"two_acts", "catch_act", "catch_step_two", "catch_two_irq", "catch_act_two_irq",
+SEQ_NAMES = {"two_acts", "env_write", "catch_act", "catch_step_two", "catch_two_irq", "catch_act_two_irq",
              "catch_all_empty", "cancel_chain", "no_uses", "bad_pack_caught", "else_empty"}
 
 def enrich(obj, path="n"):
